@@ -21,7 +21,9 @@ import (
 	"github.com/ipld/go-ipld-prime/codec/dagcbor"
 	"github.com/ipld/go-ipld-prime/codec/dagjson"
 
+	"github.com/ucan-wg/go-ucan/pkg/command"
 	"github.com/ucan-wg/go-ucan/pkg/container"
+	"github.com/ucan-wg/go-ucan/pkg/policy"
 	"github.com/ucan-wg/go-ucan/token"
 	"github.com/ucan-wg/go-ucan/token/delegation"
 	"github.com/ucan-wg/go-ucan/token/invocation"
@@ -51,7 +53,7 @@ func init() {
 		MinEvals:        floor(40000, 450000),
 		MinDistinct:     floor(20000, 400000),
 		RequiredCells: func(string) []string {
-			cells := []string{"purity/stream-reads/history", "purity/stream-reads/concurrent", "chunk/one-byte", "chunk/half", "chunk/data-err", "chunk/random", "car/legit-boundary-cut", "write/final-flush-fault", "write/clean-call-after-faulted-call", "read/clean-call-after-faulted-calls", "write/bytes-equal-buffered", "write/cid-of-written-bytes"}
+			cells := []string{"purity/stream-reads/history", "purity/stream-reads/concurrent", "sized/sealed-dlg", "sized/sealed-inv", "sized/json-dlg", "sized/json-inv", "chunk/one-byte", "chunk/half", "chunk/data-err", "chunk/random", "car/legit-boundary-cut", "write/final-flush-fault", "write/clean-call-after-faulted-call", "read/clean-call-after-faulted-calls", "write/bytes-equal-buffered", "write/cid-of-written-bytes"}
 			for _, api := range []string{"token.FromSealedReader", "delegation.FromSealedReader", "invocation.FromSealedReader", "token.FromDagCborReader", "token.FromDagJsonReader", "token.DecodeReader", "container.FromCborReader", "container.FromCarReader", "container.FromCborBase64Reader", "container.FromCarBase64Reader"} {
 				cells = append(cells, "read-fault/"+api+"/err0", "read-fault/"+api+"/errN", "read-fault/"+api+"/cut")
 			}
@@ -282,6 +284,8 @@ type artefact struct {
 	// for CAR artefacts
 	carCuts   []int
 	carBlocks [][]byte
+	// sized: built to an exact length; faults are injected at a sample of offsets only
+	sized bool
 }
 
 // tokRes variant taking the three results of a wrapped call.
@@ -344,7 +348,78 @@ func c18Artefacts(w *mon.W) []artefact {
 			out = append(out, a)
 		}
 	}
+	// tokens whose encoded form has exactly a given size: one below, at and one above the sizes
+	// at which a buffer, a limit or a length prefix changes (powers of two)
+	exps := []int{12, 16, 20}
+	if w.Thorough() {
+		exps = []int{10, 12, 13, 15, 16, 17, 20, 21, 22}
+	}
+	for _, e := range exps {
+		for _, delta := range []int{-1, 0, 1} {
+			for _, typ := range []string{"dlg", "inv"} {
+				for _, js := range []bool{false, true} {
+					if data, ok := exactSizeToken(typ, 1<<e+delta, js); ok {
+						kind := "sealed-" + typ
+						if js {
+							kind = "json-" + typ
+						}
+						out = append(out, artefact{kind: kind, data: data, sized: true, desc: fmt.Sprintf("%s of exactly 2^%d%+d bytes", kind, e, delta)})
+					}
+				}
+			}
+		}
+	}
 	return out
+}
+
+// exactSizeToken builds a token by Ed25519 issuer 1 whose sealed (or DAG-JSON) form is exactly
+// target bytes long, by padding a metadata string.
+func exactSizeToken(typ string, target int, js bool) ([]byte, bool) {
+	iss, aud := gen.Ed(1), gen.Ed(2)
+	cmd := command.MustParse("/sized")
+	nonce := bytes.Repeat([]byte{5}, 12)
+	enc := func(pad int) ([]byte, error) {
+		padding := strings.Repeat("p", pad)
+		if typ == "dlg" {
+			d, err := delegation.New(iss.DID, aud.DID, cmd, policy.Policy{}, delegation.WithSubject(iss.DID), delegation.WithNonce(nonce), delegation.WithMeta("pad", padding))
+			if err != nil {
+				return nil, err
+			}
+			if js {
+				return d.ToDagJson(iss.Priv)
+			}
+			b, _, err := d.ToSealed(iss.Priv)
+			return b, err
+		}
+		i, err := invocation.New(iss.DID, iss.DID, cmd, nil, invocation.WithNonce(nonce), invocation.WithoutInvokedAt(), invocation.WithMeta("pad", padding))
+		if err != nil {
+			return nil, err
+		}
+		if js {
+			return i.ToDagJson(iss.Priv)
+		}
+		b, _, err := i.ToSealed(iss.Priv)
+		return b, err
+	}
+	b0, err := enc(0)
+	if err != nil || len(b0) > target {
+		return nil, false
+	}
+	pad := target - len(b0)
+	for try := 0; try < 8; try++ {
+		b, err := enc(pad)
+		if err != nil {
+			return nil, false
+		}
+		if len(b) == target {
+			return b, true
+		}
+		pad += target - len(b)
+		if pad < 0 {
+			return nil, false
+		}
+	}
+	return nil, false
 }
 
 func runC18(w *mon.W) {
@@ -400,7 +475,13 @@ func runC18(w *mon.W) {
 				w.Sample(map[string]any{"artefact": a.desc, "bytes": len(a.data), "api": api.name, "read_fault_positions": 3 * (len(a.data) + 1), "keys": base.keys})
 			}
 			// fault enumeration at every offset
+			if a.sized {
+				w.Cover("sized/" + a.kind)
+			}
 			for k := 0; k <= len(a.data); k++ {
+				if a.sized && k > 64 && k < len(a.data)-64 && k%(len(a.data)/16+1) != 0 {
+					continue
+				}
 				for _, mode := range []string{"err0", "errN", "cut"} {
 					if k == len(a.data) && mode == "cut" {
 						continue // a cut at the end is no fault
